@@ -65,14 +65,23 @@ func workerMain(args []string) {
 	work := fs.String("work", "", "")
 	sampleEvery := fs.Int("sample", 1, "")
 	replay := fs.Bool("replay", false, "")
+	count := fs.Bool("count", false, "print the number of cases of this property/tier/seed and exit")
 	fs.Parse(args)
 	p := core.Registry[*propID]
 	if p == nil {
 		fmt.Fprintln(os.Stderr, "unknown property", *propID)
 		os.Exit(2)
 	}
+	if *count {
+		fmt.Println(p.NCases(&core.Ctx{Tier: *tier, Seed: *seed, Thor: *tier == "thorough", BinDir: filepath.Join(verifRoot, "bin"), Work: *work, Repo: "/repo"}))
+		return
+	}
 	runtime.GOMAXPROCS(2)
 	debug.SetMaxStack(512 << 20)
+	if os.Getenv("VERIF_SANITIZER") != "" { // instrumented build: 5-15x slower, no stall rule
+		p.CaseTimeoutS *= 8
+		p.StallS = 0
+	}
 	f, err := os.OpenFile(*jpath, os.O_CREATE|os.O_WRONLY|os.O_APPEND, 0644)
 	if err != nil {
 		fmt.Fprintln(os.Stderr, err)
@@ -311,7 +320,93 @@ func parentMain(args []string) int {
 	close(ch)
 	wg.Wait()
 
-	return report(p, ctx, a, n, time.Since(start).Seconds())
+	var san map[string]interface{}
+	if raceBin := filepath.Join(verifRoot, "bin", "vcheck-race"); ctx.Thor && p.Sanitize && os.Getenv("VERIF_NO_SANITIZER") == "" {
+		san = sanitizerPass(self, raceBin, p, ctx, a)
+	}
+	return report(p, ctx, a, n, time.Since(start).Seconds(), san)
+}
+
+// sanitizerPass repeats the quick-tier case list of the property in workers built
+// with -race (race detector + checkptr, halt_on_error). A report ends the worker;
+// the death is attributed to the case that was running and merged into the main
+// aggregate under a "race-build:" key. Oracle verdicts of the instrumented workers
+// are merged too (same code, other build). Watchdog hits stay inconclusive.
+func sanitizerPass(self, raceBin string, p *core.Prop, ctx *core.Ctx, a *agg) map[string]interface{} {
+	if _, err := os.Stat(raceBin); err != nil {
+		a.mu.Lock()
+		a.incon["sanitizer-binary-missing"]++
+		a.mu.Unlock()
+		return map[string]interface{}{"build": "-race", "ran": false, "why": "bin/vcheck-race not built"}
+	}
+	start := time.Now()
+	sctx := *ctx
+	sctx.Tier, sctx.Thor = "quick", false
+	sctx.Work = filepath.Join(ctx.Work, "san")
+	os.MkdirAll(sctx.Work, 0755)
+	// the case count of the other tier is asked from a fresh process (case plans are memoised per process)
+	n := 0
+	if out, err := exec.Command(self, "-worker", "-prop", p.ID, "-tier", "quick", "-seed", strconv.FormatUint(ctx.Seed, 10), "-work", sctx.Work, "-count").Output(); err == nil {
+		ls := strings.Split(strings.TrimSpace(string(out)), "\n")
+		n, _ = strconv.Atoi(strings.TrimSpace(ls[len(ls)-1]))
+	}
+	if n <= 0 {
+		a.mu.Lock()
+		a.incon["sanitizer-case-count-unavailable"]++
+		a.mu.Unlock()
+		return map[string]interface{}{"build": "-race", "ran": false, "why": "could not obtain the quick-tier case count"}
+	}
+	sa := &agg{hashes: map[string]struct{}{}, events: map[string]int64{}, incon: map[string]int{},
+		viols: map[string]*core.Result{}, violCount: map[string]int{}}
+	os.Setenv("VERIF_WORKER_BIN", raceBin)
+	os.Setenv("VERIF_SANITIZER", "race")
+	os.Setenv("GORACE", "halt_on_error=1")
+	defer func() { os.Unsetenv("VERIF_WORKER_BIN"); os.Unsetenv("VERIF_SANITIZER"); os.Unsetenv("GORACE") }()
+	hv := p.HangIsViolation
+	p.HangIsViolation = false
+	defer func() { p.HangIsViolation = hv }()
+	type chunk struct{ a, b int }
+	ch := make(chan chunk)
+	var wg sync.WaitGroup
+	var seq atomic.Int64
+	seq.Store(1 << 20)
+	for w := 0; w < 16; w++ {
+		wg.Add(1)
+		go func() {
+			defer wg.Done()
+			for c := range ch {
+				runChunk(self, p, &sctx, sa, c.a, c.b, n, &seq)
+			}
+		}()
+	}
+	for x := 0; x < n; x += p.Chunk {
+		y := x + p.Chunk
+		if y > n {
+			y = n
+		}
+		ch <- chunk{x, y}
+	}
+	close(ch)
+	wg.Wait()
+	reports := 0
+	for _, key := range sa.violOrder {
+		r := sa.viols[key]
+		if strings.Contains(key, "DATA RACE") || strings.Contains(key, "checkptr") {
+			reports += sa.violCount[key]
+		}
+		rr := *r
+		rr.Key = "race-build:" + key
+		a.mu.Lock()
+		a.addViol(rr.Key, &rr)
+		a.violCount[rr.Key] += sa.violCount[key] - 1
+		a.mu.Unlock()
+	}
+	return map[string]interface{}{
+		"build": "go build -race (race detector + checkptr), GORACE=halt_on_error=1", "ran": true,
+		"case_list": "quick tier of this property", "cases": sa.cases, "evaluations": sa.evals, "held_cases": sa.heldCases,
+		"inconclusive_cases": sa.inconCases, "sanitizer_reports": reports, "violation_classes": len(sa.violOrder),
+		"monitor_events": sa.events, "wall_s": time.Since(start).Seconds(),
+	}
 }
 
 // runChunk executes cases [from,to) in child processes, restarting after a
@@ -499,6 +594,7 @@ func classifyDeath(out string, exit int) (key, detail string) {
 		if first == "" && (strings.HasPrefix(l, "panic:") || strings.HasPrefix(l, "fatal error:") || strings.Contains(l, "WARNING: DATA RACE") || strings.Contains(l, "AddressSanitizer") || strings.HasPrefix(l, "runtime: goroutine stack exceeds")) {
 			first = l
 			for _, m := range lines[i:] {
+				m = strings.TrimSpace(m) // race reports indent their frames
 				if strings.HasPrefix(m, "github.com/glycerine/zygomys/v9/zygo.") {
 					site = strings.TrimPrefix(m, "github.com/glycerine/zygomys/v9/zygo.")
 					if k := strings.Index(site, "("); k > 0 && !strings.HasPrefix(site, "(") {
@@ -546,7 +642,7 @@ func loadFindings() []finding {
 	return doc.Findings
 }
 
-func report(p *core.Prop, ctx *core.Ctx, a *agg, ncases int, wall float64) int {
+func report(p *core.Prop, ctx *core.Ctx, a *agg, ncases int, wall float64, san map[string]interface{}) int {
 	known := map[string]finding{}
 	for _, f := range loadFindings() {
 		if f.Property == p.ID && f.Status == "open" {
@@ -593,23 +689,26 @@ func report(p *core.Prop, ctx *core.Ctx, a *agg, ncases int, wall float64) int {
 		inconPct = 100 * float64(a.inconCases) / float64(a.cases)
 	}
 	cov := map[string]interface{}{
-		"evaluations":         a.evals,
-		"cases":               a.cases,
-		"distinct_nontrivial": len(a.hashes),
-		"rule":                p.Rule,
-		"samples":             a.samples,
-		"monitor_events":      a.events,
-		"held_cases":          a.heldCases,
-		"inconclusive_cases":  a.inconCases,
+		"evaluations":            a.evals,
+		"cases":                  a.cases,
+		"distinct_nontrivial":    len(a.hashes),
+		"rule":                   p.Rule,
+		"samples":                a.samples,
+		"monitor_events":         a.events,
+		"held_cases":             a.heldCases,
+		"inconclusive_cases":     a.inconCases,
 		"inconclusive_by_reason": a.incon,
-		"inconclusive_pct":    inconPct,
-		"violation_classes":   violKeys,
-		"known_findings_seen": knownSeen,
-		"exhaustive":          p.Exhaustive != nil && p.Exhaustive(ctx),
-		"jobs":                16,
+		"inconclusive_pct":       inconPct,
+		"violation_classes":      violKeys,
+		"known_findings_seen":    knownSeen,
+		"exhaustive":             p.Exhaustive != nil && p.Exhaustive(ctx),
+		"jobs":                   16,
 	}
 	if len(a.samples) == 0 {
 		cov["samples"] = []string{}
+	}
+	if san != nil {
+		cov["sanitizer_pass"] = san
 	}
 	if inconPct > 2 {
 		cov["flag"] = "more than 2% of the cases were inconclusive"
